@@ -995,6 +995,20 @@ def wl_choice() -> Workflow:
     )
 
 
+def wl_choice_down() -> Workflow:
+    """r -> {c1 (2 tasks), c2} (one deferred-choice group) with e1 after c1 and e2 after c2: the losing member is
+    cancelled at stage level while the workflow goes on, its downstream stage stays NOT_STARTED behind it."""
+    return workflow(
+        [
+            stage("r"),
+            stage("c1", ["r"], tasks={"t1": dict(OK), "t2": dict(OK)}, deferred_choice_group="g"),
+            stage("c2", ["r"], deferred_choice_group="g"),
+            stage("e1", ["c1"]),
+            stage("e2", ["c2"]),
+        ]
+    )
+
+
 def wl_synthetic2(kind: str) -> Workflow:
     """More synthetic shapes.  fail_beside_before: top-level a fails terminally next to b, whose
     before-stage c (2 tasks) is still running; before2_fail: p with two parallel before-stages x
@@ -1087,6 +1101,7 @@ WORKLOADS: dict[str, Callable[[], Workflow]] = {
     "suspend_in_loop": wl_suspend_in_loop,
     "mutex": wl_mutex,
     "choice": wl_choice,
+    "choice_down": wl_choice_down,
     "fwdjump_t2": lambda: wl_forward_jump(extra_task=True),
     "poll2_t2": lambda: wl_poll(2, then_ok=True),
     "diamond_j2": lambda: wl_diamond(join_tasks=2),
